@@ -53,3 +53,12 @@ Fixpoint first_hit (rs : list set_rule) (k : packet) (i : N) : option N :=
   | [] => None
   | r :: rest => if rule_hits r k then Some i else first_hit rest k (i + 1)
   end.
+
+(* DNS response routing: a rule tests the answer's addresses; it hits when some address is in its set
+   (negated: when none is); the first hit decides. *)
+Fixpoint response_first_hit (rs : list (bool * list prefix)) (ips : list N) (i : N) : option N :=
+  match rs with
+  | [] => None
+  | (nt, ps) :: rest =>
+      if xorb (existsb (set_contains ps) ips) nt then Some i else response_first_hit rest ips (i + 1)
+  end.
